@@ -34,7 +34,7 @@ META = {
     "technique": "Coq proof over literal Gallina undo-log/heap model + vm_compute trace correspondence against real state packages",
 }
 
-UA = ["a0", "a1", "c0", "c1"]
+UA = [n + "_" * 31 for n in ("a0", "a1", "c0", "c1")]     # 33 bytes like a real address (AccountState.ID() pads shorter ids)
 UK = ["k0", "k1"]
 
 
@@ -56,6 +56,12 @@ class Gen:
         self.ops = []
         self.handles = []      # (contract index, live?)
         self.ahs = []          # AccountState handles: [account index, put?]
+        self.hvia = []         # per contract handle: index of the AccountState it was opened through (openas), or None
+        self.ah_unknown = False  # an acreate on a possibly existing account: the handle table is unknown until the next clear
+        self.touched = set()   # accounts that may exist
+        self.nssnaps = 0
+        self.ncommits = 0
+        self.cache_dirty = False  # some storage has been staged in this StateDB instance
         self.nsnaps = 0
         self.ncsnaps = 0
         self.tokens = []       # live tokens, oldest first: ("B", i) / ("C", j, h)
@@ -68,14 +74,28 @@ class Gen:
     def emit(self, op):
         self.ops.append(op)
         self.after_commit = op[0] == "commit"
+        if op[0] in ("commit", "apply"):
+            self.ncommits += 1
+        if op[0] in ("reopen", "reopenat", "apply"):
+            self.cache_dirty = False
+        if op[0] == "stage":
+            self.cache_dirty = True
+        if op[0] in ("put", "aget", "acreate", "open"):
+            self.touched.add(op[1])
+
+    def new_instance(self):
+        self.handles, self.hvia, self.tokens, self.nsnaps, self.ncsnaps, self.ahs = [], [], [], 0, 0, []
+        self.nssnaps, self.ah_unknown = 0, False
 
     def clear(self):
-        if self.handles or self.ahs or any(t[0] == "C" for t in self.tokens):
+        if self.handles or self.ahs or self.ah_unknown or any(t[0] == "C" for t in self.tokens):
             self.emit(["clear"])
         self.handles = []
+        self.hvia = []
         self.ahs = []
+        self.ah_unknown = False
         self.ncsnaps = 0
-        self.tokens = [t for t in self.tokens if t[0] == "B"]
+        self.tokens = [t for t in self.tokens if t[0] in ("B", "S")]
 
     def step(self):
         rng = self.rng
@@ -83,9 +103,21 @@ class Gen:
         choices = ["put", "put", "open"]
         if lh:
             choices += ["set", "set", "set", "del", "stage", "csnap"]
-        choices += ["snap", "aget"]
-        if self.ahs:
-            choices += ["amut", "amut", "aput", "areset"]
+        choices += ["snap", "ssnap"]
+        if not self.ah_unknown:
+            choices += ["aget", "acreate"]
+            if self.ahs:
+                choices += ["amut", "amut", "aput", "areset", "asetf", "openas"]
+        if self.handles:
+            choices += ["getcode", "rawset", "rawget", "setcode"]
+        if any(t[0] == "S" for t in self.tokens):
+            choices += ["srb"]
+        if rng.random() < 0.15:
+            choices += ["apply"]
+        if self.ncommits and rng.random() < 0.15:
+            choices += ["reopenat"]
+        if self.ncommits and (not self.cache_dirty or not self.disc) and rng.random() < 0.3:
+            choices += ["setroot"]
         if any(t[0] == "B" for t in self.tokens):
             choices += ["rb", "rb"]
         if any(t[0] == "C" for t in self.tokens):
@@ -97,15 +129,74 @@ class Gen:
             choices += ["wild"]
         c = rng.choice(choices)
         if c == "put":
-            self.emit(["put", rng.randrange(4), rng.randrange(1, 200)])
+            self.emit(["put", rng.randrange(4), rng.choice([rng.randrange(1, 200)] * 6 + [0, 255, 256, 65535, 65536, 2 ** 40])])
         elif c == "aget":
-            self.emit(["aget", rng.randrange(2) if self.disc else rng.randrange(4)])
+            self.emit(["aget", rng.randrange(4)])
             self.ahs.append([self.ops[-1][1], False])
+        elif c == "acreate":
+            a = rng.randrange(4)
+            if a in self.touched:
+                self.ah_unknown = True      # a handle is appended only if the account does not exist
+            else:
+                self.ahs.append([a, False])
+            self.emit(["acreate", a])
+        elif c == "asetf":
+            cand = [i for i, h in enumerate(self.ahs) if not (self.disc and h[1])]
+            if cand:
+                f = rng.randrange(1, 4)
+                self.emit(["asetf", rng.choice(cand), f, rng.choice([0, 1, 2, 7] + ([] if f == 2 else [255, 256, 2 ** 40]))])
+        elif c == "openas":
+            # disciplined: contract storages only for the contract accounts (a0, a1 stay plain accounts)
+            cand = [i for i, h in enumerate(self.ahs) if not self.disc or h[0] >= 2]
+            if not cand:
+                return
+            i = rng.choice(cand)
+            self.emit(["openas", i])
+            self.handles.append((self.ahs[i][0], True))
+            self.hvia.append(i)
+            self.touched.add(self.ahs[i][0])
+        elif c == "setcode":
+            # disciplined: only while the embedded State is an AccountState's newState that has not been put
+            cand = [h for h in range(len(self.handles)) if not self.disc or
+                    (self.hvia[h] is not None and self.hvia[h] < len(self.ahs) and not self.ahs[self.hvia[h]][1])]
+            if cand:
+                self.emit(["setcode", rng.choice(cand), rng.randrange(1, 6), rng.choice([0, 0, 1, 2])])
+        elif c == "getcode":
+            self.emit(["getcode", rng.randrange(len(self.handles))])
+        elif c == "rawset":
+            self.emit(["rawset", rng.randrange(len(self.handles)), rng.randrange(1, 3), rng.randrange(0, 5)])
+        elif c == "rawget":
+            self.emit(["rawget", rng.randrange(len(self.handles)), rng.randrange(1, 3)])
+        elif c == "ssnap":
+            self.tokens.append(("S", self.nssnaps))
+            self.emit(["ssnap"])
+            self.nssnaps += 1
+        elif c == "srb":
+            t = rng.choice([t for t in self.tokens if t[0] == "S"])
+            self.tokens = self.tokens[: self.tokens.index(t) + 1]
+            self.emit(["srb", t[1]])
+        elif c == "apply":
+            if self.disc:
+                self.handles = [(ci, False) for ci, _ in self.handles]
+                self.clear()
+            self.emit(["apply"])
+            self.new_instance()
+        elif c == "reopenat":
+            self.emit(["reopenat", rng.randrange(self.ncommits)])
+            self.new_instance()
+        elif c == "setroot":
+            # StateDB.SetRoot / Revert: the account buffer is reset (every revision and block snapshot dies), the
+            # storage cache is kept — disciplined traces only do it while nothing is staged
+            if self.disc:
+                self.handles = [(ci, False) for ci, _ in self.handles]
+                self.clear()
+            self.tokens = []
+            self.emit(["setroot", rng.randrange(self.ncommits)])
         elif c == "amut":
             # disciplined: Add/SubBalance only through a handle whose newState has not been put
             cand = [i for i, h in enumerate(self.ahs) if not (self.disc and h[1])]
             if cand:
-                self.emit([rng.choice(["aadd", "asub"]), rng.choice(cand), rng.randrange(1, 50)])
+                self.emit([rng.choice(["aadd", "asub"]), rng.choice(cand), rng.choice([rng.randrange(1, 50)] * 5 + [0, 255, 256, 2 ** 33])])
         elif c == "aput":
             i = rng.randrange(len(self.ahs))
             self.emit(["aput", i])
@@ -118,6 +209,7 @@ class Gen:
             ci = rng.choice([2, 3, 2, 3, 0]) if not self.disc else rng.choice([2, 3])
             self.emit(["open", ci])
             self.handles.append((ci, True))
+            self.hvia.append(None)
         elif c == "set":
             self.emit(["set", rng.choice(lh), rng.randrange(2), rng.choice([0, 1, 2, 3, rng.randrange(200)])])
         elif c == "del":
@@ -163,7 +255,7 @@ class Gen:
             self.emit(["commit"])
         elif c == "reopen":
             self.emit(["reopen"])
-            self.handles, self.tokens, self.nsnaps, self.ncsnaps, self.ahs = [], [], 0, 0, []
+            self.new_instance()
         elif c == "wild":
             # anything, valid or not: stale tokens, dead handles, unknown indices
             k = rng.choice(["rb", "crb", "stage", "set", "csnap", "clear"])
@@ -195,6 +287,8 @@ ALPHABET = [
     ["put", 0, 1], ["put", 2, 2], ["open", 2], ["set", 0, 0, 1], ["set", 0, 0, 2], ["del", 0, 0],
     ["set", 1, 0, 3], ["set", 0, 1, 4], ["stage", 0], ["stage", 1], ["snap"], ["rb", 0], ["csnap", 0], ["crb", 0],
     ["update"], ["commit"], ["aget", 0], ["aadd", 0, 3], ["aput", 0],
+    ["aget", 2], ["openas", 0], ["setcode", 0, 1, 2], ["getcode", 0], ["asetf", 0, 1, 4], ["ssnap"], ["srb", 0],
+    ["apply"], ["setroot", 0], ["acreate", 2], ["rawset", 0, 1, 3],
 ]
 
 
@@ -208,7 +302,7 @@ def erase_spans(ops, spans):
     drop = set()
     for s, e in spans:
         for i in range(s + 1, e):
-            if ops[i][0] not in ("snap", "rb"):
+            if ops[i][0] not in ("snap", "rb", "ssnap", "srb"):
                 drop.add(i)
     return [op for i, op in enumerate(ops) if i not in drop]
 
@@ -242,6 +336,30 @@ def coq_op(op):
         return "OAPut %d" % op[1]
     if k == "areset":
         return "OAReset %d" % op[1]
+    if k == "acreate":
+        return "OACreate A%d" % op[1]
+    if k == "asetf":
+        return "OASetF %d %s %d" % (op[1], {1: "FNonce", 2: "FCode", 3: "FRp"}[op[2]], op[3])
+    if k == "openas":
+        return "OOpenAs %d" % op[1]
+    if k == "setcode":
+        return "OSetCode %d %d %d" % (op[1], op[2], op[3])
+    if k == "getcode":
+        return "OGetCode %d" % op[1]
+    if k == "rawset":
+        return "ORawSet %d %d %d" % (op[1], op[2], op[3])
+    if k == "rawget":
+        return "ORawGet %d %d" % (op[1], op[2])
+    if k == "ssnap":
+        return "OSSnap"
+    if k == "srb":
+        return "OSRollback %d" % op[1]
+    if k == "setroot":
+        return "OSetRoot %d" % op[1]
+    if k == "reopenat":
+        return "OReopenAt %d" % op[1]
+    if k == "apply":
+        return "OApply"
     return {"update": "OUpdate", "commit": "OCommit", "reopen": "OReopen", "clear": "OClear"}[k]
 
 
@@ -258,7 +376,8 @@ def coq_num(x):
 def coq_obs(o, classes):
     if o.get("p"):
         return "OP"
-    nums = (o.get("a") or []) + (o.get("h") or []) + (o.get("c") or []) + (o.get("b") or []) + (o.get("ah") or [0])
+    nums = ((o.get("a") or []) + (o.get("h") or []) + (o.get("c") or []) + (o.get("b") or []) + (o.get("ah") or [0])
+            + (o.get("hs") or [0]) + (o.get("last") or [0]))
     ids = []
     rs = o.get("r") or []
     for i, r in enumerate(rs):
@@ -336,7 +455,7 @@ def visible(o):
     """accounts, cached storages, account buffer and the roots of those (the StorageRoot fields of the caller's
     AccountState handles, listed just before the state root, are not block state)"""
     r = o.get("r") or []
-    nah = (o.get("ah") or [0])[0]
+    nah = (o.get("ah") or [0])[0] + (o.get("hs") or [0])[0]
     if r:
         r = r[: len(r) - 1 - nah] + r[-1:]
     return (o.get("a") or [], o.get("c") or [], o.get("b") or [], r)
@@ -454,59 +573,51 @@ def run(ctx):
                 pred_fail.append(("C12:reverted-write-leaks", "state root / persisted data differ between a run with reverted writes and the run without them",
                                   {"ops_with_reverted": full, "ops_without": erased,
                                    "final_with": [visible(of[-1]), of[-1].get("h")], "final_without": [visible(oe[-1]), oe[-1].get("h")]}))
-        # (3) reads return the latest non-reverted write: plain accounts a0, a1 against an explicit
-        #     stack of frames (never opened as contracts, so Update does not touch them)
-        vis, frames, ahb = {}, [], []
-        for si, op in enumerate(full):
-            if si >= len(of) or of[si].get("p"):
-                break
-            if op[0] in ("aadd", "asub") and si > 0 and visible(of[si]) != visible(of[si - 1]):
-                pred_fail.append(("C12:handle-mutation-visible", "Add/SubBalance through an AccountState handle that was not PutState'd changed "
-                                  "the visible state (the handle aliases a buffered entry)",
-                                  {"ops": full[: si + 1], "before": visible(of[si - 1]), "after": visible(of[si])}))
-                break
-            if op[0] == "aget":
-                ahb.append([op[1], vis.get(op[1], 0), vis.get(op[1], 0)])   # account, old balance, working balance
-            elif op[0] == "aadd":
-                ahb[op[1]][2] += op[2]
-            elif op[0] == "asub":
-                ahb[op[1]][2] = abs(ahb[op[1]][2] - op[2])
-            elif op[0] == "areset":
-                ahb[op[1]][2] = ahb[op[1]][1]
-            elif op[0] == "aput":
-                vis[ahb[op[1]][0]] = ahb[op[1]][2]
-            elif op[0] in ("clear", "reopen"):
-                ahb = []
-            if op[0] == "put":
-                vis[op[1]] = op[2]
-            elif op[0] == "snap":
-                frames.append(dict(vis))
-            elif op[0] == "rb":
-                vis = dict(frames[op[1]])
-            elif op[0] == "reopen":
-                frames = []
-            sec, pos, seen_acc = of[si].get("a") or [], 0, {}
-            for ai in range(len(UA)):
-                if sec[pos] == 0:
-                    pos += 1
-                else:
-                    seen_acc[ai] = sec[pos + 1]
-                    pos += 2
-            bad_acc = [ai for ai in (0, 1) if seen_acc.get(ai) != vis.get(ai)]
-            if bad_acc:
-                pred_fail.append(("C12:stale-read", "an account read does not return the latest non-reverted PutState",
-                                  {"ops": full[: si + 1], "account": UA[bad_acc[0]], "read": seen_acc.get(bad_acc[0]),
-                                   "expected": vis.get(bad_acc[0])}))
-                break
-        # (4) the same for contract storage read through every live handle: committed maps, staged
-        #     overlays (snapshotted / restored by block snapshots), private overlays of unstaged handles
-        committed, staged, sframes, hs, ctoks = {}, {}, [], [], []      # storages are dict objects (identity matters)
+        # (3)+(4) reads return the latest non-reverted write, against an explicit specification state kept by the
+        #     script: accounts a0, a1, contract storage through every live handle (committed maps, staged overlays
+        #     restored by block snapshots, private overlays; storages are dict objects: identity matters), history of
+        #     persisted states for SetRoot / reopen at an older root.  (6) operations that only create or modify
+        #     caller-side objects leave the visible state unchanged (hold and compare).
+        NOOPS = ("aget", "acreate", "aadd", "asub", "asetf", "areset", "open", "openas", "getcode", "rawget", "rawset",
+                 "setcode", "ssnap", "csnap", "snap", "clear")
+        vis, frames, sfr, ahb, hist, codes = {}, [], [], [], [], {}
+        committed, staged, sframes, hs, ctoks = {}, {}, [], [], []
         for si, op in enumerate(full):
             if si >= len(of) or of[si].get("p"):
                 break
             k = op[0]
-            if k == "open":
-                c = op[1]
+            if k in NOOPS and si > 0 and visible(of[si]) != visible(of[si - 1]):
+                pred_fail.append(("C12:handle-mutation-visible", "an operation on caller-side objects only (AccountState handle not yet "
+                                  "PutState'd, ContractState open/SetCode on an unbuffered State, snapshots) changed the visible state",
+                                  {"ops": full[: si + 1], "before": visible(of[si - 1]), "after": visible(of[si])}))
+                break
+            nah = (of[si].get("ah") or [0])[0]
+            nah_before = (of[si - 1].get("ah") or [0])[0] if si > 0 else 0
+            vis_before = dict(vis)
+            # ---- accounts (the handle table of the implementation tells whether CreateAccountState made a handle)
+            if k == "put":
+                vis[op[1]] = op[2]
+            elif k == "aget" or (k == "acreate" and nah == len(ahb) + 1):
+                ahb.append([op[1], vis.get(op[1], 0), vis.get(op[1], 0)])   # account, old balance, working balance
+            elif k == "aadd":
+                ahb[op[1]][2] += op[2]
+            elif k == "asub":
+                ahb[op[1]][2] = abs(ahb[op[1]][2] - op[2])
+            elif k == "areset":
+                ahb[op[1]][2] = ahb[op[1]][1]
+            elif k == "aput":
+                vis[ahb[op[1]][0]] = ahb[op[1]][2]
+            elif k == "snap":
+                frames.append(dict(vis))
+            elif k == "rb":
+                vis = dict(frames[op[1]])
+            elif k == "ssnap":
+                sfr.append(dict(vis))
+            elif k == "srb":
+                vis = dict(sfr[op[1]])
+            # ---- contract storage
+            if k in ("open", "openas"):
+                c = op[1] if k == "open" else ahb[op[1]][0]
                 hs.append([c, staged[c] if c in staged else {}, True])     # alias of the staged object, or a private one
             elif k in ("set", "del"):
                 hs[op[1]][1][op[2]] = op[3] if k == "set" else None
@@ -531,8 +642,8 @@ def run(ctx):
                     else:
                         del staged[c]
             elif k == "clear":
-                hs, ctoks = [], []
-            elif k == "commit":                                          # always preceded by update in disciplined traces
+                hs, ctoks, ahb = [], [], []
+            elif k in ("commit", "apply"):                                # always preceded by update in disciplined traces
                 for c, ov in staged.items():
                     base_c = committed.setdefault(c, {})
                     for kk, vv in ov.items():
@@ -541,8 +652,38 @@ def run(ctx):
                         else:
                             base_c[kk] = vv
                     ov.clear()
-            elif k == "reopen":
-                staged, sframes, hs, ctoks = {}, [], [], []
+                hist.append((dict(vis), {c: dict(m) for c, m in committed.items()}))
+            if k in ("setroot", "reopenat"):
+                vis, committed = dict(hist[op[1]][0]), {c: dict(m) for c, m in hist[op[1]][1].items()}
+            if k == "acreate" and op[1] in (0, 1) and (op[1] in vis_before) and nah != nah_before:
+                pred_fail.append(("C12:create-existing", "CreateAccountState handed out a handle for an account that exists",
+                                  {"ops": full[: si + 1]}))
+                break
+            if k == "setcode":
+                codes[op[1]] = op[2]
+            elif k in ("clear", "reopen", "reopenat", "apply"):
+                codes = {}
+            if k == "getcode" and op[1] in codes and (of[si].get("last") or [0])[1:] != [1, codes[op[1]]]:
+                pred_fail.append(("C12:code-lost", "GetCode through the handle that did SetCode does not return that bytecode",
+                                  {"ops": full[: si + 1], "got": of[si].get("last"), "expected": codes[op[1]]}))
+                break
+            if k in ("reopen", "reopenat", "apply"):
+                staged, sframes, hs, ctoks, frames, sfr, ahb = {}, [], [], [], [], [], []
+            # ---- compare: accounts
+            sec, pos, seen_acc = of[si].get("a") or [], 0, {}
+            for ai in range(len(UA)):
+                if sec[pos] == 0:
+                    pos += 1
+                else:
+                    seen_acc[ai] = sec[pos + 1]
+                    pos += 6                      # present flag, balance, nonce, code, rp, source
+            bad_acc = [ai for ai in (0, 1) if seen_acc.get(ai) != vis.get(ai)]
+            if bad_acc:
+                pred_fail.append(("C12:stale-read", "an account read does not return the latest non-reverted PutState",
+                                  {"ops": full[: si + 1], "account": UA[bad_acc[0]], "read": seen_acc.get(bad_acc[0]),
+                                   "expected": vis.get(bad_acc[0])}))
+                break
+            # ---- compare: every live handle
             if k == "rb":
                 continue        # the handles of the reverted span are forgotten by the next operation (clear)
             sec = of[si].get("h") or [0]
@@ -560,9 +701,8 @@ def run(ctx):
                 if not h[2]:
                     bad_h = (hi, "live", "dead")
                 pos += 2                                                  # live flag, revision
-                ov = h[1]
                 for kk in range(len(UK)):
-                    want = ov[kk] if kk in ov else committed.get(h[0], {}).get(kk)
+                    want = h[1][kk] if kk in h[1] else committed.get(h[0], {}).get(kk)
                     if sec[pos] == 0:
                         got = None
                         pos += 1
@@ -571,6 +711,17 @@ def run(ctx):
                         pos += 2
                     if got != want and not bad_h:
                         bad_h = (hi, UK[kk], got, want)
+                for kk in range(len(UK)):                                 # HasKey: indexed in the buffer (a buffered
+                    want_has = 1 if (kk in h[1] or kk in committed.get(h[0], {})) else 0   # delete counts) or in the trie
+                    if sec[pos] != want_has and not bad_h:
+                        bad_h = (hi, "HasKey " + UK[kk], sec[pos], want_has)
+                    pos += 1
+                for kk in range(len(UK)):                                 # GetInitialData = committed value
+                    want0 = committed.get(h[0], {}).get(kk)
+                    got0 = None if sec[pos] == 0 else sec[pos + 1]
+                    pos += 1 if sec[pos] == 0 else 2
+                    if got0 != want0 and not bad_h:
+                        bad_h = (hi, "initial " + UK[kk], got0, want0)
             if bad_h:
                 pred_fail.append(("C12:stale-storage-read", "a contract storage read does not return the latest non-reverted write",
                                   {"ops": full[: si + 1], "detail": bad_h}))
